@@ -86,11 +86,19 @@ def keys_for(vec, kind):
 
 
 def judge(ctx, name, args, acc, fam, extra=None):
+    import zlib
     formula, inputs = build(name, args)
+    # one case in three: referenced values arrive as numpy scalars (what a
+    # cell computed by NOT / AND / arithmetic holds)
+    numpy_refs = bool(inputs) and zlib.crc32(repr(sorted(
+        (k, xl.show(xl.canon(v))) for k, v in inputs.items())).encode()) % 3 == 0
+    if numpy_refs:
+        formula, inputs = build(name, args, True)
+        ctx.count('numpy-typed-references')
     ctx.case((formula, sorted((k, xl.show(xl.canon(v))) for k, v in inputs.items())))
     ctx.count('fn.' + name)
     w = dict({'case': {'kind': 'call', 'name': name, 'args': enc_args(args),
-                       'family': fam},
+                       'family': fam}, 'referenced_values_as_numpy_scalars': numpy_refs,
               'formula': formula,
               'inputs': {k: xl.show(xl.canon(v)) for k, v in inputs.items()}},
              **(extra or {}))
@@ -285,7 +293,9 @@ def run_lookup(rng, ctx, n_cases):
 
 
 CELLS = [1.0, 2.0, 2.0, 5.0, -3.0, 0.0, 10.0, 3.5, 'a', 'A', 'b', 'B', 'ab', 'abc',
-         'cat', 'Dog', 'x y', '10', '3.5', '2', True, False, sh.EMPTY, sh.EMPTY, 100.0]
+         'cat', 'Dog', 'x y', '10', '3.5', '2', True, False, sh.EMPTY, sh.EMPTY, 100.0,
+         # multi-line texts: wildcards cover line feeds too
+         'Total\n2024', 'tota\n', 'a\nb']
 OPS = ['=', '<>', '<', '>', '<=', '>=', '']
 
 
@@ -303,7 +313,8 @@ def criteria_for(rng, cells):
             txt = ('%d' % x) if x == int(x) else repr(x)
             out.append(x if op == '' and rng.random() < 0.5 else op + txt)
     out += rng.sample(['a*', '?', '*b', '<>a*', 'A?', '*', '=?b*', '<b', '>=b', '<>b',
-                       '<=Cat', '>10', '<>?'], 5)
+                       '<=Cat', '>10', '<>?', 'total*', 'tota?', '<>total*', 'a?b',
+                       '*2024'], 6)
     return out
 
 
